@@ -5,7 +5,9 @@
                     which is what suppresses the duplicate event when resuming at the same location).
   DOM-early-return  instruction_per_inner: when the debugger is active and says stop, it returns Ok(debug
                     event) before instruction_inner is called and without any other effect; when it says
-                    continue (or is inactive) the instruction executes exactly once.
+                    continue (or is inactive) the instruction executes exactly once. Decided by case analysis
+                    (fvlib.cases) over {inactive, active & continue, active & stop}, so `!should_continue()` and a
+                    match on DebugEval are the same.
   DEBUG-exit        run_program's DebugEvent arm records the state and returns immediately: no receipt,
                     no finalize_outputs, no receipts-root write is reachable from it; `resume` re-enters
                     run_program only from RunProgram and records the new debug state only when is_debug().
@@ -19,6 +21,7 @@ from fvlib.core import (CFG, CallGraph, agg_blocks, assignments, bool_switch_tar
                         callee_name, describe, enum_switches, short)
 from fvlib.effects import FieldEffects
 from fvlib.summ import ok_sites, path_minmax
+from fvlib import vm
 
 
 def run(F, rep, tier, allfacts):
@@ -59,27 +62,13 @@ def run(F, rep, tier, allfacts):
     rep.saw(n)
     cfg = CFG(f)
     where = "%s:%s" % (f["file"], f["line"])
-    ia = [(i, tgt) for i, c, a, d, tgt, l in calls(f) if callee_matches(c, r"Debugger::is_active$")]
-    ev = call_blocks(f, r"::eval_debugger_state$")
-    sc = [(i, tgt) for i, c, a, d, tgt, l in calls(f) if callee_matches(c, r"DebugEval::should_continue$")]
-    ii = call_blocks(f, r"::instruction_inner$")
-    ok = len(ia) == 1 and len(ev) == 1 and len(sc) == 1 and len(ii) == 1
-    if ok:
-        tt_a = bool_switch_targets(f["bbs"][ia[0][1]]["t"])
-        tt_c = bool_switch_targets(f["bbs"][sc[0][1]]["t"])
-        neg = describe(f, f["bbs"][sc[0][1]]["t"][1], depth=4).startswith("Not(")
-        ok = bool(tt_a and tt_c)
-        if ok:
-            stop_side = tt_c[1] if not neg else tt_c[0]
-            cont_side = tt_c[0] if not neg else tt_c[1]
-            # inactive side goes straight to instruction_inner
-            ok = ev[0] in cfg.reachable_incl(tt_a[0]) and ev[0] not in cfg.reachable_incl(tt_a[1]) and ii[0] in cfg.reachable_incl(tt_a[1])
-            ok = ok and ii[0] not in cfg.reachable_incl(stop_side) and ii[0] in cfg.reachable_incl(cont_side)
-            # nothing but the conversion on the stop side
-            others = [callee_name(f["bbs"][b]["t"][1]) for b in cfg.reachable_incl(stop_side) if f["bbs"][b]["t"][0] == "call"]
-            ok = ok and all(re.search(r"convert::(Into|From)|::from$|::into$", o) for o in others)
+    dc = vm.debugger_bypass_cases(F, f)
+    ALLOWED_STOP = {"is_active", "eval_debugger_state", "should_continue", "into", "from"}
+    ok = dc is not None and dc["inactive"][0] and "eval_debugger_state" not in dc["inactive"][1] and dc["continue"][0] and \
+        not dc["stop"][0] and "eval_debugger_state" in dc["stop"][1] and set(dc["stop"][1]) <= ALLOWED_STOP
     rep.check(ok, "DOM-early-return", "stop=>return-before-instruction_inner", where,
               "a debugger stop must return the event before the instruction executes and without other calls")
+    ii = call_blocks(f, r"::instruction_inner$")
     if ii:
         oks = ok_sites(f, cfg)
         w = {ii[0]: (1, 1)}
@@ -144,7 +133,10 @@ def run(F, rep, tier, allfacts):
     for cn, cf in cg.fns.items():
         if cf["kind"] == "Closure" and cf.get("parent") == en:
             clos_eq += len([1 for i, c, args, *_ in calls(cf) if callee_matches(c, r"PartialEq.*::eq$")])
-    rep.check(len(ss) == 1 and bool(cont) and (len(eqs) + clos_eq) >= 2, "SHAPE-eval", "event-unless-last==current(both modes)", "%s:%s" % (ef["file"], ef["line"]),
+    # single_stepping is consulted (as a branch or as an operand of the `watched` condition), Continue can be answered, and
+    # the last reported state is compared with the current one (once for both modes, or once per mode)
+    ss_read = len(ss) >= 1 or any(rv[0] == "use" and describe(ef, rv[1], depth=4) == "arg:self.single_stepping" for i, j, p, rv, line in assignments(ef))
+    rep.check(ss_read and bool(cont) and (len(eqs) + clos_eq) >= 1, "SHAPE-eval", "event-unless-last==current(both modes)", "%s:%s" % (ef["file"], ef["line"]),
               "both the single-stepping and the breakpoint path must compare the taken last state with the current location (found %d comparisons)" % (len(eqs) + clos_eq))
     bp = [[describe(ef, a, depth=8) for a in args] for i, c, args, *_ in calls(ef) if callee_matches(c, r"HashMap.*::get$")]
     rep.check(len(bp) == 1 and "breakpoints" in bp[0][0], "SHAPE-eval", "breakpoints-lookup-by-contract", "%s:%s" % (ef["file"], ef["line"]), "found %s" % bp)
